@@ -2,6 +2,7 @@
 //! Every sub-command evaluates the executable form of a contract on a finite, stated space of
 //! cases and prints one JSON report as the last stdout line.  Bounded: never counted as proof.
 mod c_pwl;
+mod c_tree;
 mod fm;
 mod gen;
 mod q;
@@ -60,6 +61,8 @@ fn main() {
         "prune" => c_pwl::prune(&mut rep, tier),
         "reduce" => c_pwl::reduce(&mut rep, tier),
         "histories" => c_pwl::histories(&mut rep, tier),
+        "traversal" => c_tree::traversal(&mut rep, tier),
+        "tree-ops" => c_tree::tree_ops(&mut rep, tier),
         _ => {
             eprintln!("unknown command {cmd}");
             std::process::exit(2);
